@@ -311,7 +311,7 @@ def classify(case, desc):
 
 
 def run(run):
-    ncases = 4000 if run.thorough else 400
+    ncases = 20000 if run.thorough else 400
     cases = load_corpus()
     run.count("corpus", len(cases))
     while len(cases) < ncases:
@@ -458,8 +458,8 @@ def http_dataset_check(run):
 
     d = os.path.join(run.scratch, "http")
     os.makedirs(d, exist_ok=True)
-    nfiles = 24 if run.thorough else 8
-    ntrace = 6 if run.thorough else 2
+    nfiles = 60 if run.thorough else 8
+    ntrace = 12 if run.thorough else 2
     try:
         srv = _serve(d)
         srv_noetag = _serve(d, with_etag=False)
